@@ -144,3 +144,13 @@ package tree
 //@   modifies left.n, right.n, left.keys, left.values, left.children, right.keys, right.values, right.children, right.parent.keys, right.parent.values, right.children[0].parent, all(left.pidx)
 //@   after call removeOne[2]: ghostmap c *node[K, V] . pidx := (c != nil && c == old(right.children[0])) ? old(left.n) + 1 : ((c != nil && old(c.parent) == right && t.nodes[c]) ? old(c.pidx) - 1 : old(c.pidx))
 //@   ensures structOK(t, nil) && left.n == old(left.n) + 1 && right.n == old(right.n) - 1 && t.nodes == old(t.nodes) && t.root == old(t.root)
+
+//@ func btree.steal
+//@   props C03
+//@   requires structOK(t, x) && t.nodes[x] && x.n < 15
+//@   modifies all(x.n), all(x.keys), all(x.values), all(x.children), all(x.parent), all(x.pidx)
+//@   ensures t.nodes == old(t.nodes) && t.root == old(t.root)
+//@   ensures result ==> structOK(t, nil) && x.n == old(x.n) + 1
+//@   ensures !result ==> structOK(t, x) && x.n == old(x.n) && (x != t.root ==> (x.pidx > 0 ==> x.parent.children[x.pidx-1].n <= 7) && (x.pidx < x.parent.n ==> x.parent.children[x.pidx+1].n <= 7))
+//@   ensures !result ==> (forall c *node[K, V] {c.parent} :: c.parent == old(c.parent)) && (forall c *node[K, V] {c.pidx} :: c.pidx == old(c.pidx)) && (forall c *node[K, V] {c.n} :: c.n == old(c.n))
+//@   ensures !result ==> (forall c *node[K, V], j int {c.children[j]} :: 0 <= j && j <= 15 ==> c.children[j] == old(c.children[j]))
